@@ -8,6 +8,7 @@ import (
 	"runtime"
 	"strings"
 	"sync"
+	"time"
 	"unsafe"
 
 	"github.com/z7zmey/php-parser/pkg/position"
@@ -324,6 +325,9 @@ func poolRacePass() int {
 }
 
 func runPoolRacePass(c *core.Ctx) {
+	oldWall := c.WallPerItem
+	c.WallPerItem = 20 * time.Minute // one run of the -race binary is one long item
+	defer func() { c.WallPerItem = oldWall }()
 	bin := os.Getenv("VERIF_RACE_BIN")
 	if bin == "" {
 		c.Note("race pass skipped: no -race binary (VERIF_RACE_BIN unset)")
